@@ -837,7 +837,9 @@ def in_f_S_i(tier):
 
 # ================================================================================================ C17
 PRF_KEYS = (b'', b'\x00' * 16, bytes(range(0xa0, 0xb0)))
-PRF_BOUNDS = (1, 2, 3, 4, 5, 7, 8, 255, 256, 257, 2 ** 16, 2 ** 16 + 1, 2 ** 31 - 1, 2 ** 64, 2 ** 64 + 13, 10 ** 30)
+PRF_BOUNDS = tuple(sorted({1, 3, 5, 7, 255, 257, 2 ** 16 + 1, 2 ** 31 - 1, 2 ** 64 + 13, 10 ** 30}
+                          | {2 ** j for j in range(0, 41)} | {2 ** j for j in (47, 48, 55, 56, 63, 64, 65, 127, 128)}
+                          | {2 ** j - 1 for j in (7, 8, 15, 16, 23, 24, 31, 32)} | {2 ** j + 1 for j in (7, 8, 15, 16, 24, 32)}))
 PRF_INPUTS = (b'', b'\x00', b'abc', bytes(range(256)) + bytes(range(44)))
 PRF_NS = (None, 0, 1, 2, 5, 17)
 
@@ -992,7 +994,7 @@ for _lit in PRSS_FIELDS:
 _L.append(Native('f_S_i', 'mpyc.thresha._f_S_i', call_f_S_i, ck_f_S_i, in_f_S_i,
                  'fields GF(7), GF(11), GF(101), GF(2^31-1), GF(8), GF(9), GF(16); m <= 6 (thorough 7), m < q, every 0 <= t < m (quick: t <= 3 when 2t >= m), every subset S of size m-t, '
                  'every i in -1..m-1: == value at i+1 of the polynomial that is 1 at 0 and 0 at the parties outside S (oracle Lagrange); caches cleared before each case'))
-_PRF_DOM = ('keys: empty, 16 zero bytes, 16 pattern bytes; bounds 1,2,3,4,5,7,8,255,256,257,2^16,2^16+1,2^31-1,2^64,2^64+13,10^30 (thorough more); '
+_PRF_DOM = ('keys: empty, 16 zero bytes, 16 pattern bytes; bounds: every power of two 2^0..2^40 and 2^47,48,55,56,63,64,65,127,128, 2^j-1 and 2^j+1 around byte boundaries, 3,5,7,10^30 (thorough more); '
             'inputs b"", b"\\x00", b"abc", 300 bytes; n in None,0,1,2,5,17 (thorough 3,64,257)')
 _L.append(Native('prf_spec', 'mpyc.thresha.PRF.__call__', call_prf, ck_prf_spec, in_prf, _PRF_DOM + ': in range(bound), exactly n values / scalar, == documented construction recomputed with hashlib'))
 _L.append(Native('prf_determinism', 'mpyc.thresha.PRF.__call__', call_prf_det, ck_prf_det, in_prf, _PRF_DOM + ': repeated call, call after an unrelated call, second PRF object with equal key/bound agree'))
